@@ -457,8 +457,8 @@ MUTANTS = [
     {'id': 'axis_angle_term', 'file': 'math.py', 'find': "        mat._bc = y*z * icos - x*sin", 'replace': "        mat._bc = y*z * icos + x*sin", 'expect': 'C04.A2'},
     {'id': 'mat_mul_index', 'file': 'math.py', 'find': "            self._ba * other._ab + self._bb * other._bb + self._bc * other._cb,", 'replace': "            self._ba * other._ab + self._bb * other._bb + self._bc * other._bc,", 'expect': 'C04.A3'},
     {'id': 'vec_rot_column', 'file': 'math.py', 'find': "        vec._y = (x * self._ab) + (y * self._bb) + (z * self._cb)", 'replace': "        vec._y = (x * self._ba) + (y * self._bb) + (z * self._bc)", 'expect': 'C04.A3'},
-    {'id': 'rmatmul_order_swapped', 'file': 'math.py', 'find': "        elif isinstance(other, MatrixBase):\n            mat = other.copy()\n            mat._mat_mul(self)\n            return mat", 'replace': "        elif isinstance(other, MatrixBase):\n            mat = self.copy()\n            mat._mat_mul(other)\n            return mat", 'expect': None, 'note': 'negative control: __rmatmul__ matrix arm is unreachable for the documented pairs (left __matmul__ handles them)'},
-    {'id': 'matmul_order_swapped', 'file': 'math.py', 'find': "        if isinstance(other, MatrixBase):\n            mat = self.copy()\n            mat._mat_mul(other)\n            return mat", 'replace': "        if isinstance(other, MatrixBase):\n            mat = other.copy()\n            mat._mat_mul(self)\n            return mat", 'expect': 'C04.A4'},
+    {'id': 'rmatmul_order_swapped', 'file': 'math.py', 'find': "                other._ca, other._cb, other._cc,\n            )\n            mat._mat_mul(self)\n            return mat", 'replace': "                other._ca, other._cb, other._cc,\n            )\n            mat = Py_Matrix.from_angle(self.to_angle())\n            mat._mat_mul(other)\n            return mat", 'expect': None, 'note': 'negative control: __rmatmul__ matrix arm is unreachable for the documented pairs (left __matmul__ handles them)'},
+    {'id': 'matmul_order_swapped', 'file': 'math.py', 'find': "        mat = type(self)._from_raw(\n            self._aa, self._ab, self._ac,\n            self._ba, self._bb, self._bc,\n            self._ca, self._cb, self._cc,\n        )\n        mat._mat_mul(rot)\n        return mat", 'replace': "        mat = type(self)._from_raw(\n            rot._aa, rot._ab, rot._ac,\n            rot._ba, rot._bb, rot._bc,\n            rot._ca, rot._cb, rot._cc,\n        )\n        mat._mat_mul(self)\n        return mat", 'expect': 'C04.A4'},
     {'id': 'angle_rmatmul_skips_from_angle', 'file': 'math.py', 'find': "        elif isinstance(other, tuple):\n            return Vec(other) @ Py_Matrix.from_angle(self)", 'replace': "        elif isinstance(other, tuple):\n            return NotImplemented", 'expect': 'C04.A4'},
     {'id': 'matrix_imatmul_angle_wrong_receiver', 'file': 'math.py', 'find': "        elif isinstance(other, AngleBase):\n            self._mat_mul(Py_Matrix.from_angle(other))\n            return self", 'replace': "        elif isinstance(other, AngleBase):\n            Py_Matrix.from_angle(other)._mat_mul(self)\n            return self", 'expect': 'C04.A4'},
     {'id': 'to_angle_yaw_args_swapped', 'file': 'math.py', 'find': "            ang._yaw = math.degrees(math.atan2(for_y, for_x)) % 360.0", 'replace': "            ang._yaw = math.degrees(math.atan2(for_x, for_y)) % 360.0", 'expect': 'C04.A5'},
